@@ -33,6 +33,14 @@ def make_jobs(ctx):
         wasmvalid.validate(m)
         jobs.append(e2_job(ctx, 'chain_%d' % k, m, [{'call': 'f'}], backends=['sat', 'cvc5', 'kissat'], witnesses=['end of script|trap path'],
                            timeout=200 if ctx.quick else 900, sample={'chain': F.FLOAT_CHAINS[k]}))
+    # a comparison immediately followed by the instructions a translator is most likely to fuse it with (peepholes)
+    cops = F.comparison_ops(True)
+    for oi, op in enumerate(cops):
+        for fi, fo in enumerate(F.CMP_FOLLOWERS):
+            if ctx.quick and fo not in ('eqz', 'brif') and (oi + fi + ctx.seed) % 4 != 0:
+                continue
+            jobs.append(e2_job(ctx, 'cmp_%s_%s' % (op.replace('.', '_'), fo), F.cmp_then(op, fo), [{'call': 'f'}], backends=['sat', 'kissat'],
+                               unwind=6, timeout=120 if ctx.quick else 600, group='cmp_then'))
     # oracle self-validation against the repository's own specification test vectors (BrokenMachinery on disagreement)
     import wastvec
     aux = wastvec.run_selftest(ctx, lambda op: not (op[0] == 'i' and 'trunc' not in op and 'reinterpret' not in op))
